@@ -19,7 +19,7 @@ func init() {
 		Name:  "PRIO",
 		Doc:   "weight order, discount loop, path selection pairing, direct-use rule, abstract cost bounds, input registration",
 		Run:   runPrio,
-		Floor: map[string]int{"PRIO-W": 4, "PRIO-D": 5, "PRIO-P": 4, "PRIO-N": 3, "PRIO-T": 1, "INPUT": 8, "INPUT-C": 2},
+		Floor: map[string]int{"PRIO-W": 4, "PRIO-D": 5, "PRIO-P": 4, "PRIO-N": 3, "PRIO-T": 1, "INPUT": 8, "INPUT-C": 2, "INPUT-V": 2},
 	})
 }
 
@@ -861,6 +861,7 @@ func (c *Ctx) runInputs(kinds *core.Kinds) {
 			"each registered input gets exactly its edge to the input root and is recorded in the list of supplied inputs", fmt.Sprintf("root-edge=%v tracked=%v", edgeOK, tracked))
 	}
 	c.runConverterOptions()
+	c.runValueOptions()
 	// INPUT-C: every supplied converter (and every generated one) is added to the graph, unconditionally
 	if fb := c.P.MustRole("funcBuilder"); fb != nil {
 		supplied, generated := false, false
